@@ -298,6 +298,40 @@ func opsLarge() []seq.Op[*pair] {
 	return o
 }
 
+// opsRunes: a third alphabet - several KiB consumed in front of multi-byte runes, with every read kind
+// followed by its unread - for implementations that compact or slide the consumed prefix away.
+func opsRunes() []seq.Op[*pair] {
+	var o []seq.Op[*pair]
+	add := func(name string, ft func(t *tex.Buffer) string, fb func(b *bytes.Buffer) string) {
+		o = append(o, seq.Op[*pair]{Name: name, Step: func(p *pair) (string, string) {
+			return p.both(name, func() string { return ft(p.t) }, func() string { return fb(p.b) })
+		}})
+	}
+	for _, n := range []int{4095, 4097, 8193} {
+		pl := strings.Repeat("abcdefg", n/7+1)[:n] + "\u4e16\u00e9z"
+		add(fmt.Sprintf("Write(%d ascii bytes + 2 runes + z)", n), func(t *tex.Buffer) string { k, e := t.WriteString(pl); return fmt.Sprint(k, errStr(e)) }, func(b *bytes.Buffer) string { k, e := b.WriteString(pl); return fmt.Sprint(k, errStr(e)) })
+	}
+	for _, n := range []int{1, 4094, 4096, 4097} {
+		n := n
+		add(fmt.Sprintf("Next(%d)", n), func(t *tex.Buffer) string { return fmt.Sprint(len(t.Next(n))) }, func(b *bytes.Buffer) string { return fmt.Sprint(len(b.Next(n))) })
+	}
+	add("Read(4096)", func(t *tex.Buffer) string {
+		p := make([]byte, 4096)
+		k, e := t.Read(p)
+		return fmt.Sprint(k, errStr(e))
+	}, func(b *bytes.Buffer) string {
+		p := make([]byte, 4096)
+		k, e := b.Read(p)
+		return fmt.Sprint(k, errStr(e))
+	})
+	add("ReadByte", func(t *tex.Buffer) string { c, e := t.ReadByte(); return fmt.Sprint(c, errStr(e)) }, func(b *bytes.Buffer) string { c, e := b.ReadByte(); return fmt.Sprint(c, errStr(e)) })
+	add("ReadRune", func(t *tex.Buffer) string { r, n, e := t.ReadRune(); return fmt.Sprint(r, n, errStr(e)) }, func(b *bytes.Buffer) string { r, n, e := b.ReadRune(); return fmt.Sprint(r, n, errStr(e)) })
+	add("UnreadByte", func(t *tex.Buffer) string { return errStr(t.UnreadByte()) }, func(b *bytes.Buffer) string { return errStr(b.UnreadByte()) })
+	add("UnreadRune", func(t *tex.Buffer) string { return errStr(t.UnreadRune()) }, func(b *bytes.Buffer) string { return errStr(b.UnreadRune()) })
+	add("WriteString(\u00e9)", func(t *tex.Buffer) string { k, e := t.WriteString("\u00e9"); return fmt.Sprint(k, errStr(e)) }, func(b *bytes.Buffer) string { k, e := b.WriteString("\u00e9"); return fmt.Sprint(k, errStr(e)) })
+	return o
+}
+
 var startsLarge = []start{
 	{"zero", func() *pair { return &pair{t: &tex.Buffer{}, b: &bytes.Buffer{}} }},
 	{"NewSizedBuffer(1028)", func() *pair { return &pair{t: tex.NewSizedBuffer(1028), b: bytes.NewBuffer(make([]byte, 0, 1028))} }},
@@ -372,7 +406,7 @@ func rewriteFamily(c *seq.Ctx) {
 
 func main() {
 	r := ev.Start("C11")
-	r.Rule("breadth-first over all operation sequences (alphabet of ~55 calls incl. invalid arguments, scripted readers/writers) applied to tex.Buffer and the toolchain's bytes.Buffer side by side from five constructor start states, and over a second alphabet of 24 calls whose sizes straddle the growth machinery (1..1010-byte writes, Next 1..1000, ReadFrom with 1..1010-byte chunkings around MinRead=512, Grow 1/512/600) from zero and 600/1024/1028-byte sized buffers; states merged only when the complete private state of BOTH buffers (contents incl. consumed prefix, offset, lastRead, capacity) is equal; distinct = distinct (op, observation) pairs")
+	r.Rule("breadth-first over all operation sequences (alphabet of ~55 calls incl. invalid arguments, scripted readers/writers) applied to tex.Buffer and the toolchain's bytes.Buffer side by side from five constructor start states, and over a second alphabet of 24 calls whose sizes straddle the growth machinery (1..1010-byte writes, Next 1..1000, ReadFrom with 1..1010-byte chunkings around MinRead=512, Grow 1/512/600) from zero and 600/1024/1028-byte sized buffers, and a third alphabet of 14 calls (4-8 KiB writes ending in multi-byte runes, Next/Read of 1..4097 bytes, ReadByte/ReadRune and their unreads) to depth 4/6; states merged only when the complete private state of BOTH buffers (contents incl. consumed prefix, offset, lastRead, capacity) is equal; distinct = distinct (op, observation) pairs")
 	r.Assume("bytes.Buffer of the installed toolchain is the reference", "UnreadByte/UnreadRune directly after Grow and Cap() are not compared (property's own exclusion)")
 	depth := r.Pick(4, 5)
 	var jobs []func()
@@ -394,6 +428,11 @@ func main() {
 			seq.Explore(r, &seq.Spec[*pair]{Name: "buffer-large/" + st.name, Ops: opsLarge(), New: st.mk, Key: key, Depth: r.Pick(4, 5), MaxViolations: 30, Sig: func(path []string, msg string) string { return path[len(path)-1] + " differs from bytes.Buffer" }})
 		})
 	}
+	jobs = append(jobs, func() {
+		if r.Want("runes") {
+			seq.Explore(r, &seq.Spec[*pair]{Name: "buffer-runes-behind-a-long-prefix/zero", Ops: opsRunes(), New: startsLarge[0].mk, Key: key, Depth: r.Pick(4, 6), MaxViolations: 30, Sig: func(path []string, msg string) string { return path[len(path)-1] + " differs from bytes.Buffer" }})
+		}
+	})
 	jobs = append(jobs, func() { seq.RunFamily(r, seq.Family{Name: "rewrite+sized", Run: rewriteFamily}) })
 	seq.Parallel(8, jobs)
 	r.Finish()
